@@ -1305,6 +1305,195 @@ def run(chk):
             exits = ", ".join("line %s" % b[2] if isinstance(b, tuple) else b for b in bad)
             chk.violation(r_lc, key, "%s modifies %s (`%s`) and can return (%s) without emptying %s, which %s::%s() only rebuilds when it is empty: the accessor keeps handing out records built from the old %s" % (f["q"], src, show(node)[:60], exits, M, q.split("::")[-1], "iuad" if M == "output_data" else "accessor", src), f["file"], node["l"])
 
+    # ---- C05.wellchain: a well target goes out of and back into the SAME property
+    r_wc = chk.rule("C05.wellchain", "round-trip closure of the well control targets, every link taken from the code: the property P of WellProductionProperties / WellInjectionProperties that Well's restart constructor fills from RstWell field F is a property whose control value (controls(): controls.c = eval(this->P)) the writer stores (sWell[S] = f(pc.c) / f(ic.c)) in the very slot S that RstWell reads F from (F(swel[S])) - OilRate -> oil_rate -> OilRateTarget -> orat_target -> OilRate, and so on for water, gas, liquid, reservoir-volume rate, ALQ, THP and BHP targets and the injection rates", floor=10)
+    wc = chk.facts([OUT + "AggregateWellData.cpp", RST + "well.cpp", "/repo/opm/input/eclipse/Schedule/Well/Well.cpp", "/repo/opm/input/eclipse/Schedule/Well/WellProductionProperties.cpp", "/repo/opm/input/eclipse/Schedule/Well/WellInjectionProperties.cpp"])
+    W = {}
+    for f in wc.fns:
+        if not f.get("body") or not f["file"].endswith("AggregateWellData.cpp"):
+            continue
+        kinds = {}
+        for p_ in f["params"]:
+            if "ProductionControls" in (p_.get("t") or ""):
+                kinds[p_["n"]] = "prod"
+            if "InjectionControls" in (p_.get("t") or ""):
+                kinds[p_["n"]] = "inj"
+        for n in walk(f["body"]):
+            if n["k"] == "Decl":
+                for v in n["vars"]:
+                    if "ProductionControls" in (v.get("t") or ""):
+                        kinds[v["n"]] = "prod"
+                    if "InjectionControls" in (v.get("t") or ""):
+                        kinds[v["n"]] = "inj"
+        if not kinds:
+            continue
+        for n in walk(f["body"]):
+            if n["k"] in ("Bin", "OpCall") and (n.get("asg") or n.get("op") == "=") and n.get("op") == "=":
+                l_, r_ = (n.get("c") or n.get("a"))
+                lt = show(strip(l_))
+                m = re.fullmatch(r"sWell\[(?:[\w:]*::)?(\w+)\]", lt)
+                if not m:
+                    continue
+                for x in walk(r_):
+                    if x["k"] == "Mem" and isinstance(x.get("b"), dict) and strip(x["b"]).get("k") == "Ref" and strip(x["b"])["n"] in kinds:
+                        W.setdefault(m.group(1), set()).add((kinds[strip(x["b"])["n"]], x["n"]))
+    # one level through helper parameters: sWell[S] = f(param) in a helper, called with pc.c / ic.c
+    via_param = []
+    for f in wc.fns:
+        if not f.get("body") or not f["file"].endswith("AggregateWellData.cpp"):
+            continue
+        pnames = [p_.get("n") for p_ in f["params"]]
+        for n in walk(f["body"]):
+            if n["k"] in ("Bin", "OpCall") and n.get("op") == "=" and (n.get("asg") or n["k"] == "OpCall"):
+                l_, r_ = (n.get("c") or n.get("a"))
+                m = re.fullmatch(r"sWell\[(?:[\w:]*::)?(\w+)\]", show(strip(l_)))
+                if not m:
+                    continue
+                for x in walk(r_):
+                    if x["k"] == "Ref" and x.get("d") == "Parm" and x.get("n") in pnames and not any(t in (f["params"][pnames.index(x["n"])].get("t") or "") for t in ("Controls", "&&", "SWProp", "UnitSystem", "SummaryState")):
+                        via_param.append((f["n"], pnames.index(x["n"]), m.group(1)))
+    for f in wc.fns:
+        if not f.get("body") or not f["file"].endswith("AggregateWellData.cpp"):
+            continue
+        kinds = {}
+        for p_ in f["params"]:
+            if "ProductionControls" in (p_.get("t") or ""):
+                kinds[p_["n"]] = "prod"
+            if "InjectionControls" in (p_.get("t") or ""):
+                kinds[p_["n"]] = "inj"
+        for n in walk(f["body"]):
+            if n["k"] == "Decl":
+                for v in n["vars"]:
+                    if "ProductionControls" in (v.get("t") or ""):
+                        kinds[v["n"]] = "prod"
+                    if "InjectionControls" in (v.get("t") or ""):
+                        kinds[v["n"]] = "inj"
+        if not kinds:
+            continue
+        for n in walk(f["body"]):
+            if n["k"] == "Call":
+                cn = (n.get("fn") or (n.get("callee") or {}).get("n") or "").split("::")[-1].split("<")[0]
+                for hn, pi, S in via_param:
+                    if cn == hn and pi < len(n.get("a") or []):
+                        for x in walk(n["a"][pi]):
+                            if x["k"] == "Mem" and isinstance(x.get("b"), dict) and strip(x["b"]).get("k") == "Ref" and strip(x["b"])["n"] in kinds:
+                                W.setdefault(S, set()).add((kinds[strip(x["b"])["n"]], x["n"]))
+    Cmap = {"prod": {}, "inj": {}}
+    for f in wc.fns:
+        if f["n"] != "controls" or not f.get("body"):
+            continue
+        kind = "prod" if "WellProductionProperties" in f["q"] else "inj" if "WellInjectionProperties" in f["q"] else None
+        if kind is None:
+            continue
+        for n in walk(f["body"]):
+            if n["k"] in ("Bin", "OpCall") and n.get("op") == "=" and (n.get("asg") or n["k"] == "OpCall"):
+                l_, r_ = (n.get("c") or n.get("a"))
+                l_ = strip(l_)
+                if l_.get("k") == "Mem" and strip(l_.get("b") or {}).get("k") == "Ref":
+                    mem = [x["n"] for x in walk(r_) if x["k"] == "Mem" and strip(x.get("b") or {"k": "This"}).get("k") == "This" and "UDAValue" in (x.get("t") or "")]
+                    if len(mem) == 1:
+                        Cmap[kind].setdefault(l_["n"], set()).add(mem[0])
+    Rmap = {}
+    for f in wc.fns:
+        if f["n"] == "RstWell" and f["file"].endswith("rst/well.cpp") and f.get("inits"):
+            for i_ in f["inits"]:
+                sl = [x for x in walk(i_["init"]) if x["k"] in ("Idx", "OpCall") and show(strip((x.get("c") or x.get("a") or [{}])[0])) == "swel"]
+                if len(sl) == 1:
+                    ix = show(strip((sl[0].get("c") or sl[0].get("a"))[1]))
+                    Rmap.setdefault(i_["member"], set()).add(ix.split("::")[-1])
+    rc = [f for f in wc.fns if f["n"] == "Well" and f["file"].endswith("Well/Well.cpp") and f.get("body") and any("RstWell" in (p_.get("t") or "") for p_ in f["params"])]
+    if len(rc) != 1 or len(W) < 6 or len(Cmap["prod"]) < 6 or len(Rmap) < 8:
+        raise core.AnalysisBroken("C05.wellchain: links not found (restore constructors %d, writer slots %d, production controls %d, reader fields %d)" % (len(rc), len(W), len(Cmap["prod"]), len(Rmap)))
+    rc = rc[0]
+    rparam = [p_["n"] for p_ in rc["params"] if "RstWell" in (p_.get("t") or "")][0]
+    pk = {}
+    for n in walk(rc["body"]):
+        if n["k"] == "Decl":
+            for v in n["vars"]:
+                if "WellProductionProperties" in (v.get("t") or "") + show(v.get("init")):
+                    pk[v["n"]] = "prod"
+                elif "WellInjectionProperties" in (v.get("t") or "") + show(v.get("init")):
+                    pk[v["n"]] = "inj"
+    n_wc = 0
+    for n in walk(rc["body"]):
+        tgt = src = None
+        if n["k"] in ("Call", "MCall", "OpCall") and len(n.get("a") or []) == 2 and strip(n["a"][0]).get("k") == "Mem" and n["k"] != "OpCall":
+            tgt, src = strip(n["a"][0]), n["a"][1]
+        elif n["k"] == "OpCall" and n.get("op") == "()" and len(n.get("a") or []) == 3 and strip(n["a"][1]).get("k") == "Mem":
+            tgt, src = strip(n["a"][1]), n["a"][2]
+        elif n["k"] == "MCall" and n.get("m") == "update" and isinstance(n.get("obj"), dict) and strip(n["obj"]).get("k") == "Mem" and len(n.get("a") or []) == 1:
+            tgt, src = strip(n["obj"]), n["a"][0]
+        if tgt is None:
+            continue
+        base = strip(tgt.get("b") or {})
+        while base.get("k") in ("OpCall", "Un") and (base.get("a") or base.get("c")):
+            base = strip((base.get("a") or base.get("c"))[0])
+        if base.get("k") != "Ref" or base.get("n") not in pk:
+            continue
+        flds = [x["n"] for x in walk(src) if x["k"] == "Mem" and strip(x.get("b") or {}).get("k") == "Ref" and strip(x["b"])["n"] == rparam]
+        if len(flds) != 1 or flds[0] not in Rmap:
+            continue
+        kind, P, F = pk[base["n"]], tgt["n"], flds[0]
+        slots = Rmap[F]
+        cands = {m for S in slots for (k_, c_) in W.get(S, ()) if k_ == kind for m in Cmap[kind].get(c_, ())}
+        n_wc += 1
+        key = "%s:%s<-%s" % (kind, P, F)
+        chk.instance(r_wc, key, sample=dict(restored_property=P, from_field=F, field_read_from_slot=sorted(slots), slot_written_from=sorted("%s.%s" % kc for S in slots for kc in W.get(S, ())), those_controls_come_from=sorted(cands)))
+        if P not in cands:
+            chk.violation(r_wc, key, "Well's restart constructor fills %s::%s from RstWell::%s, which is read from slot %s; the writer stores %s there, i.e. the propert%s %s: after a restart %s holds the value another target had in the original run" % ("WellProductionProperties" if kind == "prod" else "WellInjectionProperties", P, F, sorted(slots), sorted("%s.%s" % kc for S in slots for kc in W.get(S, ()) if kc[0] == kind) or "nothing of this kind", "y" if len(cands) == 1 else "ies", sorted(cands) or "(none)", P), rc["file"], n["l"])
+    # the other direction, per writer site: a slot that is restored into property P receives, where a single control is
+    # stored, a control that comes from P
+    rest_by_slot = {}
+    for n in walk(rc["body"]):
+        tgt = src = None
+        if n["k"] == "OpCall" and n.get("op") == "()" and len(n.get("a") or []) == 3 and strip(n["a"][1]).get("k") == "Mem":
+            tgt, src = strip(n["a"][1]), n["a"][2]
+        elif n["k"] == "MCall" and n.get("m") == "update" and isinstance(n.get("obj"), dict) and strip(n["obj"]).get("k") == "Mem" and len(n.get("a") or []) == 1:
+            tgt, src = strip(n["obj"]), n["a"][0]
+        if tgt is None:
+            continue
+        base = strip(tgt.get("b") or {})
+        while base.get("k") in ("OpCall", "Un") and (base.get("a") or base.get("c")):
+            base = strip((base.get("a") or base.get("c"))[0])
+        if base.get("k") != "Ref" or base.get("n") not in pk:
+            continue
+        flds = [x["n"] for x in walk(src) if x["k"] == "Mem" and strip(x.get("b") or {}).get("k") == "Ref" and strip(x["b"])["n"] == rparam]
+        if len(flds) == 1 and flds[0] in Rmap:
+            for S in Rmap[flds[0]]:
+                rest_by_slot.setdefault((pk[base["n"]], S), set()).add(tgt["n"])
+    for f in wc.fns:
+        if not f.get("body") or not f["file"].endswith("AggregateWellData.cpp"):
+            continue
+        kinds = {p_["n"]: ("prod" if "ProductionControls" in (p_.get("t") or "") else "inj") for p_ in f["params"] if "ProductionControls" in (p_.get("t") or "") or "InjectionControls" in (p_.get("t") or "")}
+        for n in walk(f["body"]):
+            if n["k"] == "Decl":
+                for v in n["vars"]:
+                    if "ProductionControls" in (v.get("t") or ""):
+                        kinds[v["n"]] = "prod"
+                    if "InjectionControls" in (v.get("t") or ""):
+                        kinds[v["n"]] = "inj"
+        if not kinds:
+            continue
+        for n in walk(f["body"]):
+            if n["k"] in ("Bin", "OpCall") and n.get("op") == "=" and (n.get("asg") or n["k"] == "OpCall"):
+                l_, r_ = (n.get("c") or n.get("a"))
+                m = re.fullmatch(r"sWell\[(?:[\w:]*::)?(\w+)\]", show(strip(l_)))
+                if not m:
+                    continue
+                mems = [(kinds[strip(x["b"])["n"]], x["n"]) for x in walk(r_) if x["k"] == "Mem" and isinstance(x.get("b"), dict) and strip(x["b"]).get("k") == "Ref" and strip(x["b"])["n"] in kinds]
+                if len(set(mems)) != 1:
+                    continue
+                kind, c_ = mems[0]
+                S = m.group(1)
+                want_p = rest_by_slot.get((kind, S))
+                if not want_p or c_ not in Cmap[kind]:
+                    continue
+                key = "writer:%s@%d:%s.%s" % (S, n["l"], kind, c_)
+                chk.instance(r_wc, key, sample=dict(slot=S, line=n["l"], stores="%s.%s" % (kind, c_), which_comes_from=sorted(Cmap[kind][c_]), slot_is_restored_into=sorted(want_p)))
+                if not (Cmap[kind][c_] & want_p):
+                    chk.violation(r_wc, key, "the writer stores %s.%s (the control value of %s) in sWell[%s] (line %d), and the restart constructor restores that slot into %s: the target of one quantity comes back as the target of another" % ("pc" if kind == "prod" else "ic", c_, sorted(Cmap[kind][c_]), S, n["l"], sorted(want_p)), f["file"], n["l"])
+    chk.extra["wellchain_links"] = dict(writer_slots=len(W), controls=len(Cmap["prod"]) + len(Cmap["inj"]), reader_fields=len(Rmap), restored=n_wc)
+
     # ---- C05.fpindex: cell property arrays are read at an index of their own kind
     r_fi = chk.rule("C05.fpindex", "outside FieldProps, an array taken from FieldPropsManager::get_int/get_double/get_copy/try_get (one entry per ACTIVE cell) is subscripted with an active index and one from get_global_int/get_global_double with a global index - where the index comes from is followed through locals: cell.active_index(), activeIndex(...), getActiveIndex(...) are active, .global_index / getGlobalIndex(...) / a *global_index* member are global (the restart constructor of Connection looks the saturation table of a defaulted connection up this way)", floor=8)
     from verif import fpindex
